@@ -113,8 +113,8 @@ PcStep ==
        \/ /\ f.at = "w_delete" /\ Gate("w") /\ Goto("ret")
           /\ IF pe[n].ex THEN PeWrite(now, f.c, "pc", n, [pe[n] EXCEPT !.del = TRUE]) ELSE Same
        \/ /\ f.at = "create" /\ Cardinality(f.todo) < Len(want[n]) /\ HasFree
-          /\ \/ CloudCreate(now, f.c, "pc", FreeEni, TRUE) /\ Gate("c") /\ SetTop([f EXCEPT !.todo = @ \cup {FreeEni}])
-             \/ CloudCreate(now, f.c, "pc", 0, FALSE) /\ Fault("create", Cardinality(f.todo) + 1) /\ Goto("rollback")
+          /\ \/ CloudCreate(now, f.c, "pc", FreeEni, TRUE, now) /\ Gate("c") /\ SetTop([f EXCEPT !.todo = @ \cup {FreeEni}])
+             \/ CloudCreate(now, f.c, "pc", 0, FALSE, now) /\ Fault("create", Cardinality(f.todo) + 1) /\ Goto("rollback")
        \/ /\ f.at = "create" /\ Cardinality(f.todo) < Len(want[n]) /\ ~HasFree /\ Same /\ Goto("rollback") /\ hist' = hist
        \/ /\ f.at = "create" /\ Cardinality(f.todo) = Len(want[n])
           /\ \/ /\ ~pe[n].ex /\ Gate("w") /\ Goto("ret")
